@@ -44,8 +44,11 @@ type c07Kid struct {
 }
 
 type c07Node struct {
-	ID          string   `node:"id"`
-	Parent      string   `node:"parent"`
+	ID     string `node:"id"`
+	Parent string `node:"parent"`
+	// a field whose type cannot take every value (declared before the others: a refused value here must not keep the
+	// fields after it from being updated); not part of the compared configuration
+	Level       uint8    `point:"level"`
 	Description string   `point:"description"`
 	Value       float64  `point:"value"`
 	Role        string   `edgepoint:"role"`
@@ -641,9 +644,8 @@ func (rn *c07Runner) storeCfg(parent, id string) *c07Cfg {
 		nec.Children = append(nec.Children, data.NodeEdgeChildren{NodeEdge: k})
 	}
 	var cfg c07Node
-	if err := data.Decode(nec, &cfg); err != nil {
-		return nil
-	}
+	// (an error only says that some point did not fit its field, e.g. a level of -3: the other fields are decoded)
+	_ = data.Decode(nec, &cfg)
 	cf := c07CfgOf(cfg)
 	return &cf
 }
